@@ -141,9 +141,12 @@ check("C17",
       "DESIGN.md 6 C17")
 
 check("C19",
-      "Solver-decided for the native sliding-window reduction, the trailing (bottleneck move_*) window reduction and the "
-      "cumulative scans (sequential, Blelloch) with symbolic window, chunk sizes and output position (block counts concrete: "
-      "2..4/5 for windows, 1..9/17 for Blelloch): symbolic nodes of the real classes build _block_plan/_layer; the graphs run "
+      "Solver-decided for the native sliding-window reduction, the trailing (bottleneck move_*) window reduction, the "
+      "cumulative scans (sequential, Blelloch) and overlap / map_overlap (boundary none, periodic, reflect; symbolic depth) "
+      "with symbolic window, chunk sizes and output position (block counts concrete: "
+      "2..4/5 for windows, 1..9/17 for Blelloch, 2..3 for overlap): map_overlap(identity) through the real MapOverlap._lower "
+      "(rechunk -> boundaries -> OverlapInternal -> map_blocks -> trim_internal) equals its input, overlap() equals the "
+      "per-block windows of the padded array; symbolic nodes of the real classes build _block_plan/_layer; the graphs run "
       "on symbolic arrays through the repository's own block kernels (_sliding_window_banded_reduce, "
       "_sliding_window_block_total, _moving_window_banded_reduce incl. counts/min_count/NaN masking, _cum_tail, "
       "_prefixscan_*); running sums are terms over an uninterpreted prefix function of the source, so equality with the NumPy "
@@ -151,8 +154,8 @@ check("C19",
       "exact key grid, advertised block shapes.",
       "Trusted: z3, symx shims, symx.sarr scan model (accumulate/reduce of views and concatenations of views), exact reals. "
       "The tiling argument extends the verdict from add to the other reducers that share the kernel code path (stated, not "
-      "separately discharged). Outside: map_overlap/overlap boundaries/trim, diff/gradient, sliding_window_view alone, var, "
-      "float rounding.",
+      "separately discharged). Outside: 'nearest' and constant-value boundaries, asymmetric depths, diff/gradient, "
+      "sliding_window_view alone, var, float rounding.",
       "DESIGN.md 6 C19",
       technique="bounded symbolic execution of the repo's layers and block kernels on symbolic arrays (symx) + z3 SMT (QF_UFLIRA)")
 
